@@ -152,4 +152,9 @@ InvNoSelfFwdLeaving == NoSelfFwdIn("Leaving")
 InvLookupCorrect == LookupCorrect(s)
 ChurnDone == \A n \in NodesOf(s.lay) : (n \in Joiners => s.jpc[n] \in {"done", "failed"}) /\ (n \in Leavers => s.lpc[n] \in {"done", "failed"})
 Converges == <>[](ChurnDone /\ RingCorrect(s))
+(* a member whose successor list names departed nodes only must be able to repair it: without the fallback of stabilize such a
+   state is a dead end of convergence (stabilize learns about the ring through the live entries of the list alone).  C02 *)
+AllLeft(x, n) == x.succ[n] # <<>> /\ \A i \in 1..Len(x.succ[n]) : x.st[x.succ[n][i]] = "Left"
+NoDeadEnd(x) == \A n \in Members(x) : AllLeft(x, n) => ~AllLeft(StabilizeF(x, n), n)
+InvNoDeadEnd == NoDeadEnd(s)
 =============================================================================
